@@ -178,7 +178,7 @@ Section Alg.
         end
     end.
   Definition overlaps (queue : list seg) : list (Z * Z * list seg) :=
-    overlap_loop (S (2 * length queue)) (sort_segs queue) [] (t_L t + 1) (t_L t + 1).
+    overlap_loop (S (3 * length queue)) (sort_segs queue) [] (t_L t + 1) (t_L t + 1).
 
   (* simplifier_merge_ancestors 9745-9854 *)
   Definition merge_step (input_id : nat) (is_s keep_unary : bool)
